@@ -381,8 +381,12 @@ impl CoreInner {
 		);
 
 		// After successful manifest commit, cleanup obsolete vlog files and stale index entries
+		// ... unless a reader is open: it may hold older tables whose pointers lead into
+		// those files. The clean-up is then left to a later flush or compaction.
 		let min_oldest_vlog = manifest.min_oldest_vlog_file_id();
-		cleanup_vlog_and_index(&self.vlog, &self.versioned_index, min_oldest_vlog, "flush");
+		if self.snapshot_tracker.first().is_none() {
+			cleanup_vlog_and_index(&self.vlog, &self.versioned_index, min_oldest_vlog, "flush");
+		}
 
 		Ok(table)
 	}
